@@ -127,7 +127,9 @@ def main():
   selectors = list(SINGLE) + ["INPUT", "OUTPUT", "*"]
   traces, meta = [], []
   t0 = time.time()
-  counts = {"ctor_error": 0, "refused": 0, "accepted": 0, "star_skipped": 0, "star_applied": 0}
+  counts = {"ctor_error": 0, "refused": 0, "accepted": 0, "star_skipped": 0, "star_applied": 0, "star_on_reused_quantizer": 0}
+  specific = {}      # (config, algorithm, operator) -> does an update naming the operator accept it
+  reused = {}        # operator -> one Quantizer whose '*' rule is replaced lattice point after lattice point
   for p in lattice(Q):
     base = {"config": pkey(p)}
     try:
@@ -153,8 +155,12 @@ def main():
           try:
             q.update_quantization_recipe(".*", Q.TFLOperationName(sel), cfg, alg)
             ev.append({"ev": "accepted", "exc": "", "rules": len(q.get_quantization_recipe())})
+            if sel == code:
+              specific[(pkey(p), alg, code)] = "yes"
           except Exception as e:  # pylint: disable=broad-except
             ev.append({"ev": "refused", "exc": type(e).__name__, "rules": len(q.get_quantization_recipe())})
+            if sel == code:
+              specific[(pkey(p), alg, code)] = "no"
             counts["refused"] += 1
             traces.append({"star": sel == "*", "events": ev})
             meta.append(dict(base, selector=sel, algorithm=alg, op=code))
@@ -168,8 +174,21 @@ def main():
             from ai_edge_quantizer import recipe_manager  # resolution as quantize() will see it
             algk, _ = q._recipe_manager.get_quantization_configs(Q.TFLOperationName(code), info["names"][0][scn["subs"][0]["ops"][0]["outs"][0]] + ";")  # pylint: disable=protected-access
             applied = str(getattr(algk, "value", algk)) != "no_quantize"
-            ev.append({"ev": "applied" if applied else "skipped", "exc": "", "rules": len(q.get_quantization_recipe())})
+            ev.append({"ev": "applied" if applied else "skipped", "exc": "", "rules": len(q.get_quantization_recipe()),
+                       "specific": specific.get((pkey(p), alg, code), "na")})
             counts["star_applied" if applied else "star_skipped"] += 1
+            # the same '*' update on a Quantizer that has resolved many other '*' rules before (replaced in place)
+            if code not in reused:
+              reused[code] = quantizer.Quantizer(model)
+            qr = reused[code]
+            qr.update_quantization_recipe(".*", Q.TFLOperationName(sel), cfg, alg)
+            algr, _ = qr._recipe_manager.get_quantization_configs(Q.TFLOperationName(code), info["names"][0][scn["subs"][0]["ops"][0]["outs"][0]] + ";")  # pylint: disable=protected-access
+            appr = str(getattr(algr, "value", algr)) != "no_quantize"
+            traces.append({"star": True, "events": [{"ev": "built", "exc": "", "rules": 0}, {"ev": "accepted", "exc": "", "rules": len(qr.get_quantization_recipe())},
+                                                    {"ev": "applied" if appr else "skipped", "exc": "", "rules": len(qr.get_quantization_recipe()),
+                                                     "specific": specific.get((pkey(p), alg, code), "na")}]})
+            meta.append(dict(base, selector=sel, algorithm=alg, op=code, reused_quantizer=True))
+            counts["star_on_reused_quantizer"] += 1
           try:
             # calibrated on an input x and evaluated on x (the moving average over several inputs would clip the larger ones)
             qmodels = []
@@ -225,7 +244,7 @@ def main():
     if v["consumed"] != v["len"]:
       chk.violation("trace not accepted by the protocol specification at event %d (%s)" % (v["consumed"] + 1, t["events"][v["consumed"]]["ev"]), dict(rep, clause="protocol"))
       continue
-    for clause in ("only_value_error", "refusal_noop", "star_accepts"):
+    for clause in ("only_value_error", "refusal_noop", "star_accepts", "star_consistent"):
       if not v[clause]:
         chk.violation("%s false for %s / %s / %s" % (clause, m.get("selector"), m["config"], m.get("algorithm")), dict(rep, clause=clause))
     if not v["no_late_failure"]:
